@@ -709,6 +709,15 @@ class Gen:
       mx = next_tid.get((o, sid), 1)
       ids = self.live.get((o, sid)) or [1]
       tid = r.choice(ids) if r.random() < 0.93 else mx + r.choice([0, 1, 2])
+      # a write that fails inside the datastore right after a state change (a metadata update naming a missing trial):
+      # whatever the previous call stored and acknowledged must survive it (SQL: a rollback must not take it along)
+      if out and out[-1][0] in ('CheckEarlyStop', 'SuggestTrials', 'CompleteTrial', 'StopTrial', 'SetStudyState', 'AddTrialMeasurement') \
+          and out[-1][0] != 'UpdateMetadata' and r.random() < self.p.get('fail_after', 0.12):
+        lastk = key_of_rpc(out[-1])
+        if lastk in studies:
+          out.append(('UpdateMetadata', lastk[0], lastk[1], gen_md(r, 1), [(next_tid.get(lastk, 1) + 7, kv) for kv in gen_md(r, 1)] or
+                      [(next_tid.get(lastk, 1) + 7, ('', 'k', 0, 'v'))]))
+          continue
       # keep poking the trial the previous call touched (completed / stopped / infeasible trials get follow-up calls)
       if out and out[-1][0] in ('CompleteTrial', 'StopTrial', 'AddTrialMeasurement', 'CheckEarlyStop') and r.random() < 0.45:
         lastk = key_of_rpc(out[-1])
